@@ -999,3 +999,4 @@ def run(res, facts, tier):
     c04_attrset.run_rule(res, facts, tier)
     from . import c04_split
     c04_split.run_rule(res, facts, tier)
+    c04_split.run_cdata_rule(res, facts, tier)
